@@ -1230,6 +1230,20 @@ def loop_fragment_cases(rnd, n):
                 if bad and rnd.random() < 0.5:
                     hi = nq + rnd.randint(0, 1)
                 body = [op("i", lo, hi) for _j in range(rnd.randint(1, 3))]
+                if 0 <= lo <= hi < nq and rnd.random() < 0.5:
+                    # richer body statements (Lang/LoopModProofs.v): library gates, modifiers, closed parameter expressions on q[i]
+                    c2 = rnd.random()
+                    others = [k for k in range(nq) if not lo <= k <= hi]
+                    if c2 < 0.3:
+                        body.append("%s @ %s q[i];" % (rnd.choice(["inv", "pow(2)", "inv @ pow(2)", "pow(-1)"]), rnd.choice(["s", "t", "h", "x", "sdg"])))
+                    elif c2 < 0.55:
+                        body.append("%s(%s) q[i];" % (rnd.choice(gp + ["p", "u1"] if "p" in LIB else gp), rnd.choice(PEXPR)))
+                    elif c2 < 0.75 and others:
+                        body.append("%s q[i], q[%d];" % (rnd.choice(["cnot", "ch", "cy", "cx"]), rnd.choice(others)))
+                    elif c2 < 0.9:
+                        body.append("u3(%s, %s, %s) q[i];" % tuple(rnd.choice(PEXPR) for _ in range(3)))
+                    else:
+                        body.append("inv @ rx(%s) q[i];" % rnd.choice(PEXPR))
                 if bad and rnd.random() < 0.5:
                     body.append("cx q[%d], q[i];" % rnd.randint(lo, max(lo, hi)))
                 L.append("for int i in [%d:%d] { %s }" % (lo, hi, " ".join(body)))
